@@ -110,6 +110,13 @@ pub(crate) fn remove_syntactic_sugar(
         if body.contains_anonymous_component(Some(reports)) {
             continue;
         }
+        // An assignment where the left-hand side is not a variable (like
+        // `1 + x = 3`) is parsed as a multi-substitution, which is invalid if
+        // the left-hand side is not a tuple.
+        if let Err(report) = remove_tuples_from_statement(body.clone()) {
+            reports.push(*report);
+            continue;
+        }
         new_functions.insert(name.clone(), function.clone());
     }
     (new_templates, new_functions)
